@@ -203,6 +203,7 @@ harnesses! {
     e2n_c18_declared_signers [native 0] => battery::c18_declared_signers;
     e2n_c07_add_output [native 0] => battery::c07_add_output;
     e2n_c05_change_step [native 0] => battery::c05_change_step;
+    e2n_c06_change_fee_widths [native 0] => battery::c06_change_fee_widths;
     e2n_c16_hash_eq [native 0] => battery::c16_hash_eq;
     e2n_c08_first_input_fee [native 0] => battery::c08_first_input_fee;
     e2n_c19_return_min_ada [native 0] => battery::c19_return_min_ada;
